@@ -49,7 +49,7 @@ class PrefixPart:
         return None
 
 
-_comment = r'#[^\n\r\f]*'
+_comment = r'#[^\n\r\f]*(?:\f+[^\n\r\f]+)*'
 _backslash = r'\\\r?\n|\\\r'
 _newline = r'\r?\n|\r'
 _form_feed = r'\f'
